@@ -81,6 +81,18 @@ def paramflow(prog, rep, fam):
     if not isinstance(ret.value, ast.Tuple):
         raise AnalysisError(f"{fn.qualname}: return is not a tuple display")
     # per returned slot: list of (alternative term, path condition of its defining statement)
+    from vstat.guards import literals as _lits
+
+    def split(t, pc, d):
+        """A conditional expression is two guarded alternatives."""
+        if t[0] == "ifexp" and pc is not None:
+            return split(t[2], tuple(pc) + tuple(_lits(t[1], True)), d) + split(t[3], tuple(pc) + tuple(_lits(t[1], False)), d)
+        return [(t, pc, d)]
+
+    class _Synth:
+        kind = "assign"
+        stmt = ret
+
     slot_alts = []
     for el in ret.value.elts:
         al = []
@@ -89,9 +101,9 @@ def paramflow(prog, rep, fam):
                 if d.kind == "param":
                     al.append((b.def_term(d), None, d))
                 else:
-                    al.append((b.def_term(d), pcs.of(d.stmt), d))
+                    al += split(b.def_term(d), pcs.of(d.stmt), d)
         else:
-            al.append((b.term(el, ret), pcs.of(ret), None))
+            al += split(b.term(el, ret), pcs.of(ret), _Synth)
         slot_alts.append(al)
     for p in formals:
         inst = f"{fam.ci.qualname}._get_scipy_parameters:{p}"
@@ -169,7 +181,8 @@ def slots(prog, rep, fam):
             continue
         e_exp = expected_slot(kind, par, P)
         e_sto = expected_slot(kind, par, A)
-        al = alts(t)
+        from vstat.terms import flat_alts
+        al = flat_alts(t)
         hit_e = [a for a in al if algebra.same(a, e_exp)]
         hit_s = [a for a in al if algebra.same(a, e_sto)]
         extra = [a for a in al if a not in hit_e and a not in hit_s]
